@@ -3,6 +3,7 @@
   (internal/app/plugins/poll/poll.go): `connections.add / rmv / get` and the hand-off of one message.
   The random choice among the members of a group is a parameter (`pick`); theorems hold for every pick.
 -/
+import Resonate.Model.Json
 namespace Resonate.Poll
 
 structure Conn where
@@ -18,14 +19,19 @@ structure St where
   conns : List Conn := []          -- registered connections (registration order)
   closed : List Nat := []          -- handles whose channel has been closed, most recent first
   next : Nat := 0                  -- handle of the next connection object (each HTTP poll request makes a new one)
+  down : Bool := false             -- the send queue has been closed (server stopping): the loop closes whatever registers
 deriving Repr, Inhabited
+
+/-- `c.id == conn.id && (c.ch == conn.ch || !match)` inside the group's slice -/
+def hit (c : Conn) (g i : String) (h : Option Nat) : Bool :=
+  c.group == g && c.id == i && (match h with | some x => c.handle == x | none => true)
 
 /-- remove the first registered connection with this group and id (and, if `handle` is given, this very channel); close it -/
 def rmvFirst : List Conn → String → String → Option Nat → List Conn × Option Nat
   | [], _, _, _ => ([], none)
   | c :: rest, g, i, h =>
-    if c.group == g && c.id == i && (match h with | some x => c.handle == x | none => true) then (rest, some c.handle)
-    else let (r, x) := rmvFirst rest g i h; (c :: r, x)
+    if hit c g i h then (rest, some c.handle)
+    else ((rmvFirst rest g i h).1.cons c, (rmvFirst rest g i h).2)
 
 /-- `connections.add`: a connection with the same group and id is replaced (and closed); at the limit the
     new connection is closed immediately instead of being registered -/
@@ -51,6 +57,11 @@ def get (s : St) (group id : String) (pick : Nat) : Option Conn :=
 inductive Outcome | delivered (handle : Nat) | noConnection | notifyWrongId | full
 deriving DecidableEq, Repr, Inhabited
 
+/-- the connection with channel `hd` gets `b` appended to its stream -/
+def bumpConn (hd : Nat) (b : String) (x : Conn) : Conn := if x.handle == hd then { x with buf := x.buf ++ [b] } else x
+
+def bump (s : St) (hd : Nat) (b : String) : St := { s with conns := s.conns.map (bumpConn hd b) }
+
 /-- `PollWorker.Process` after the address has been decoded -/
 def process (s : St) (notify : Bool) (group id body : String) (pick : Nat) : St × Outcome :=
   match get s group id pick with
@@ -58,11 +69,12 @@ def process (s : St) (notify : Bool) (group id body : String) (pick : Nat) : St 
   | some c =>
     if notify && c.id != id then (s, .notifyWrongId)
     else if c.buf.length < c.cap then
-      ({ s with conns := s.conns.map fun x => if x.handle == c.handle then { x with buf := x.buf ++ [body] } else x }, .delivered c.handle)
+      (bump s c.handle body, .delivered c.handle)
     else (s, .full)
 
-/-- shutdown branch of the worker: every registered channel is closed once, the registry emptied -/
-def shutdown (s : St) : St := { s with conns := [], closed := (s.conns.map (·.handle)).reverse ++ s.closed }
+/-- shutdown branch of the worker: every registered channel is closed once, the registry emptied
+    (Go ranges over a map: the order of the closes is unspecified and not modelled) -/
+def shutdown (s : St) : St := { s with conns := [], closed := s.conns.map (·.handle) ++ s.closed }
 
 inductive Op
   /-- a new connection object asks to be registered (`/poll/{group}/{id}` request) -/
@@ -73,12 +85,45 @@ inductive Op
   | shutdown
 deriving Repr, Inhabited
 
+/-- one iteration of `PollWorker.Start`; once the send queue is closed, every iteration ends by closing all
+    registered channels, and no further message is taken -/
 def step (s : St) : Op → St
-  | .connect g i cap => add { s with next := s.next + 1 } { handle := s.next, group := g, id := i, cap := cap, buf := [] }
-  | .disconnect h g i => rmv s { handle := h, group := g, id := i, cap := 0, buf := [] }
-  | .send n g i b p => (process s n g i b p).1
-  | .shutdown => shutdown s
+  | .connect g i cap =>
+    let s' := add { s with next := s.next + 1 } { handle := s.next, group := g, id := i, cap := cap, buf := [] }
+    if s.down then shutdown s' else s'
+  | .disconnect h g i =>
+    let s' := rmv s { handle := h, group := g, id := i, cap := 0, buf := [] }
+    if s.down then shutdown s' else s'
+  | .send n g i b p => if s.down then s else (process s n g i b p).1
+  | .shutdown => shutdown { s with down := true }
+
+/-! ### the address (`mesg.Data`) -/
+
+inductive DataRes | null | bad | ok (group id : String)
+deriving DecidableEq, Repr, Inhabited
+
+def asciiLower (s : List Char) : List Char := s.map fun c => if 'A' ≤ c ∧ c ≤ 'Z' then Char.ofNat (c.toNat + 32) else c
+
+/-- last pair whose key matches the field name case-insensitively (encoding/json struct decoding) -/
+def field (name : List Char) (m : List (List Char × List Char)) : List Char :=
+  match (m.reverse.find? fun kv => asciiLower kv.1 == name) with
+  | some kv => kv.2
+  | none => []
+
+/-- `json.Unmarshal(mesg.Data, &data)` with `data *Data` for flat objects with string values
+    (the shapes the sender produces and the correspondence generator draws) -/
+def decodeData (raw : String) : DataRes :=
+  if raw == "null" then .null
+  else match Json.decMap raw.toList with
+    | none => .bad
+    | some m => .ok (String.ofList (field "group".toList m)) (String.ofList (field "id".toList m))
 
 def run (s : St) (ops : List Op) : St := ops.foldl step s
+
+/-- `PollWorker.Process` from the raw address bytes: an undecodable or `null` address is a failed hand-off -/
+def processRaw (s : St) (notify : Bool) (data body : String) (pick : Nat) : St × Option Outcome :=
+  match decodeData data with
+  | .ok g i => let r := process s notify g i body pick; (r.1, some r.2)
+  | _ => (s, none)
 
 end Resonate.Poll
